@@ -141,6 +141,8 @@ const PROGRAMS: &[(&str, &str)] = &[
     ("needs3", "#ruledef\n{\n    jmp {x} => { assert(x < 4), 0x1 @ x`4 }\n    jmp {x} => 0x2 @ x`12\n    nop => 0x00\n}\njmp l1\njmp l1\nl1:\nnop\nnop\n"),
     ("faulty", "#ruledef\n{\n    ld {x: u8} => 0x10 @ x\n}\nld nosuch\n"),
     ("defined", "v = 1\n#d8 v\n#if v == 2\n{\n#d8 0xee\n}\n"),
+    // v3: a constant whose initialiser is not known before the layout (labels), overridden from the command line
+    ("defined-late", "#ruledef\n{\n    ld {x: u8} => 0x55 @ x\n}\nstart:\nld v\n#d8 v\nend:\nv = end - start\n"),
 ];
 
 /// the second input file of multi-input command lines: assembled after the first, never names an output
@@ -177,7 +179,7 @@ const INVALID_SPECS: &[&str] = &[
 ];
 
 pub fn gen_cli(t: &mut Tape) -> Cli {
-    let program = t.weighted(&[6, 2, 1, 2]);
+    let program = if crate::engine::gen_version() >= 3 { t.weighted(&[6, 2, 1, 2, 2]) } else { t.weighted(&[6, 2, 1, 2]) };
     let input = if crate::engine::gen_version() >= 2 {
         // v2: dots in directory names, `./`, a dot-file: the derived name changes only the LAST component
         t.pick(&["main.asm", "main.asm", "prog.s", "dir/main.asm", "noext", "main.bin", "a.b.asm", "main.txt", "./noext", "v1.2/prog", "dir.d/main.asm", ".hidden", "./main.asm", "a.b/c.d/noext"]).to_string()
@@ -232,7 +234,9 @@ pub fn gen_cli(t: &mut Tape) -> Cli {
         3 => Some("5".to_string()),
         _ => Some(t.pick(&["0", "x", "-1"]).to_string()),
     };
-    let defines = if program == 3 && t.flip() { vec![("v".to_string(), t.pick(&["2", "1", "0x2"]).to_string())] } else { vec![] };
+    let defines = if program == 4 && t.chance(2, 3) {
+        vec![("v".to_string(), t.pick(&["0x77", "2", "3"]).to_string())]
+    } else if program == 3 && t.flip() { vec![("v".to_string(), t.pick(&["2", "1", "0x2"]).to_string())] } else { vec![] };
     let quiet = t.chance(3, 4);
     // assemble the argument list; global options go to a random group
     let mut per_group: Vec<Vec<String>> = Vec::new();
@@ -322,6 +326,8 @@ pub enum Expect {
     AssemblyFails,
     Writes(Vec<(String, Vec<u8>)>, Vec<Vec<u8>>), // files in order, printed contents in order
     NothingAssembled,
+    /// the library run itself contradicts the closed-form expectation of a define-steered program
+    DefineNotHonoured(String),
 }
 
 pub fn expectation(cli: &Cli, docs: &[FormatDoc]) -> Expect {
@@ -379,6 +385,23 @@ pub fn expectation(cli: &Cli, docs: &[FormatDoc]) -> Expect {
     let (Some(out), Some(decls), Some(defs)) = (res.output.as_ref(), res.decls.as_ref(), res.defs.as_ref()) else {
         return Expect::AssemblyFails;
     };
+    // the two programs that are steered by a define have outputs known in closed form ("a define replaces the value
+    // of the constant everywhere"): the library run that supplies the expected file contents must itself show them
+    if let Some((_, v)) = cli.defines.iter().find(|d| d.0 == "v") {
+        let k = if let Some(h) = v.strip_prefix("0x") { i64::from_str_radix(h, 16).unwrap() } else { v.parse::<i64>().unwrap() } as u8;
+        let want: Option<Vec<u8>> = match PROGRAMS[cli.program].0 {
+            "defined-late" => Some(vec![0x55, k, k]),
+            "defined" => Some(if k == 2 { vec![2, 0xee] } else { vec![k] }),
+            _ => None,
+        };
+        if let Some(want) = want {
+            let got: Vec<u8> = sut::bitvec_bits(out).chunks(8).map(|c| c.iter().fold(0u8, |a, b| (a << 1) | *b as u8)).collect();
+            let got = if cli.extra_input { got[..got.len().saturating_sub(1).min(got.len())].to_vec() } else { got };
+            if got != want && !(cli.extra_input && sut::bitvec_bits(out).len() / 8 == want.len() + 1 && got == want) {
+                return Expect::DefineNotHonoured(format!("-d v={} on program `{}`: output {:02x?}, expected {:02x?}", v, PROGRAMS[cli.program].0, got, want));
+            }
+        }
+    }
     let mut files = Vec::new();
     let mut printed = Vec::new();
     for (fmt, name) in names {
@@ -434,6 +457,7 @@ impl Property for C18 {
             Expect::AssemblyFails => "expect:assembly-fails",
             Expect::Writes(..) => "expect:writes",
             Expect::NothingAssembled => "expect:help",
+            Expect::DefineNotHonoured(_) => "expect:define-not-honoured",
         });
         let mut fs = MemFs::new();
         fs.add(&cli.input, PROGRAMS[cli.program].1.as_bytes().to_vec());
@@ -453,6 +477,7 @@ impl Property for C18 {
             Ok(o) => o,
         };
         match &expect {
+            Expect::DefineNotHonoured(d) => return fail(ctx, "define-not-honoured", d.clone()),
             Expect::RejectBeforeAssembling(why) => {
                 if o.ok {
                     return fail(ctx, "invalid-command-line-accepted", format!("{}; the driver succeeded and wrote {:?}", why, o.writes.iter().map(|w| &w.0).collect::<Vec<_>>()));
@@ -530,6 +555,7 @@ impl Property for C18 {
                 ))
             } else {
                 match &expect {
+                    Expect::DefineNotHonoured(_) => None,
                     Expect::RejectBeforeAssembling(_) | Expect::AssemblyFails => {
                         if r.code != Some(1) || !files.is_empty() || r.stderr.is_empty() {
                             Some(("real|failure-not-clean".into(), format!("{} files {:?}", r.brief(), files.iter().map(|f| &f.0).collect::<Vec<_>>())))
